@@ -19,7 +19,7 @@
    [simple_obj]). *)
 From Coq Require Import List NArith ZArith Bool.
 Import ListNotations.
-From NV Require Import Gen.MetaConsts Meta.SMap Meta.Model.
+From NV Require Import Gen.MetaConsts Meta.SMap Meta.Model Meta.Spec.
 Local Open Scope N_scope.
 
 (* ---------------------------------------------------------------- BLOB storage *)
@@ -76,19 +76,19 @@ Definition delete_objs (s : shard) (c : cid) (ids : list oid) : shard :=
 
 Definition is_tomb (t : otype) : bool := otype_eqb t TTombstone.
 
-(* tombBins of collectExpiredObjects: a tombstone joins the last bin when it is of the same container *)
-Fixpoint tomb_bins (l : list (cid * oid * otype)) (bins : list (cid * list oid)) : list (cid * list oid) :=
+(* tombBins of collectExpiredObjects: a tombstone joins the last bin when it is of the
+   same container; [cur] is the last (still open) bin *)
+Fixpoint tomb_bins (l : list (cid * oid * otype)) (cur : option (cid * list oid)) : list (cid * list oid) :=
   match l with
-  | [] => bins
+  | [] => match cur with Some b => [b] | None => [] end
   | (c, x, t) :: r =>
       if is_tomb t then
-        let bins' :=
-          match rev bins with
-          | (c', ids) :: rb => if c' =? c then rev rb ++ [(c', ids ++ [x])] else bins ++ [(c, [x])]
-          | [] => [(c, [x])]
-          end in
-        tomb_bins r bins'
-      else tomb_bins r bins
+        match cur with
+        | Some (c', ids) => if c' =? c then tomb_bins r (Some (c', ids ++ [x]))
+                            else (c', ids) :: tomb_bins r (Some (c, [x]))
+        | None => tomb_bins r (Some (c, [x]))
+        end
+      else tomb_bins r cur
   end.
 
 (* engine.processExpiredObjects for one address, engine with this single shard:
@@ -110,7 +110,7 @@ Definition collect_expired (limit : nat) (s : shard) : shard :=
   else
     let batch := firstn limit (view_expired (sh_meta s) e) in
     let s1 := match batch with [] => set_done s e | _ => s end in
-    let s2 := fold_left (fun s' bin => delete_objs s' (fst bin) (snd bin)) (tomb_bins batch []) s1 in
+    let s2 := fold_left (fun s' bin => delete_objs s' (fst bin) (snd bin)) (tomb_bins batch None) s1 in
     fold_left expired_one
               (map (fun t : cid * oid * otype => fst t) (filter (fun t : cid * oid * otype => negb (is_tomb (snd t))) batch))
               s2.
@@ -174,13 +174,6 @@ Definition sh_locked (s : shard) (c : cid) (x : oid) : bool := view_locked (sh_m
 
 (* ---------------------------------------------------------------- the fragment *)
 
-(* objects without family relations: no parent, no split / EC fields *)
-Definition simple_hdr (h : hdr) : bool :=
-  match h_parent h, h_first h, h_split h, h_ecr h, h_eci h with
-  | None, None, None, None, None => true
-  | _, _, _, _, _ => false
-  end.
-Definition simple_obj (o : obj) : bool :=
-  simple_hdr (o_hdr o) && match o_par o with None => true | Some _ => false end.
+(* objects without family relations (Meta/Spec.simple_obj: no parent, no split / EC fields) *)
 Definition simple_op (o : sop) : bool :=
   match o with SPut _ ob => simple_obj ob | _ => true end.
